@@ -1,6 +1,7 @@
 /-
   C13 — corrupted responses are rejected and never change state.
 -/
+import Msmart.Lemmas.CodecEqLan
 import Msmart.Lemmas.Crc
 import Msmart.Lemmas.Contained
 import Msmart.Props.C14
@@ -226,5 +227,39 @@ example : AllRejected [[[0xaa, 0x00]]] := by
   intro reply hr f hf
   simp at hr; subst hr; simp at hf; subst hf
   exact ⟨_, rfl⟩
+
+/-! ### `Response._construct` as translated: frame check, dispatch, body check -/
+
+/-- **C13 about the translated `Response._construct`**: a frame whose outer checksum does not match is rejected before
+    anything else is looked at, with the frame-level error. -/
+theorem dispatch_rejects_bad_frame_code (frame : Bytes) (e : Err) (h : frameValidate frame = .error e) :
+    Generated.Codec.constructDispatch frame = .error e := by
+  rw [CodecEq.constructDispatch_eq]; unfold constructDispatch; rw [h]; rfl
+
+/-- **C13 about the translated `Response._construct`**: whatever it hands to a response class other than the properties
+    class has passed the frame check AND the body check, and is the payload `frame[10:-2]`. -/
+theorem dispatch_accepts_only_checked_code (frame p : Bytes) (t : Int)
+    (h : Generated.Codec.constructDispatch frame = .ok (t, p)) :
+    frameValidate frame = .ok () ∧ p = ((frame.drop 10).dropLast).dropLast ∧
+      (t = 3 ∨ respValidate ((frame.drop 10).dropLast) = .ok ()) := by
+  rw [CodecEq.constructDispatch_eq] at h
+  unfold constructDispatch at h
+  cases hv : frameValidate frame with
+  | error e => rw [hv] at h; cases h
+  | ok u =>
+    rw [hv] at h
+    cases hc : respClass frame with
+    | error e => simp [hc, bind, Except.bind] at h
+    | ok cls =>
+      simp only [hc, bind, Except.bind] at h
+      cases hb : validateUnlessProps cls frame with
+      | error e => simp [hb] at h
+      | ok u2 =>
+        simp only [hb, pure, Except.pure, Except.ok.injEq, Prod.mk.injEq] at h
+        refine ⟨rfl, h.2.symm, ?_⟩
+        unfold validateUnlessProps at hb
+        by_cases hp : cls = .props
+        · left; rw [← h.1, hp]; rfl
+        · right; rw [if_pos hp] at hb; rw [hb]
 
 end Msmart.Props.C13
